@@ -718,6 +718,19 @@ Proof.
   destruct (ingest_frame _ f). intros E; inversion E. apply set_nth_length.
 Qed.
 
+(** * frames of other packets leave a slot alone unless it is the one selected (reused) *)
+Lemma recv_frame_other_slots (qs : list queue) f qs' r ev i :
+  recv_frame qs f = (qs', r, ev) ->
+  match ev with Some (k, _) => k <> i | None => True end ->
+  nth_error qs' i = nth_error qs i.
+Proof.
+  unfold recv_frame. destruct (_ && _); [intros E _; inversion E; auto|].
+  destruct (select_queue qs f) as [[k b]|]; [|intros E _; inversion E; auto].
+  destruct (nth_error qs k); [|intros E _; inversion E; auto].
+  destruct (ingest_frame _ f). intros E Hk; inversion E; subst.
+  rewrite nth_error_set_nth. destruct (Nat.eqb_spec k i); [contradiction|reflexivity].
+Qed.
+
 (** * one emission per slot epoch *)
 Lemma idle_slot_rejects (q : queue) f : q_idle q = true -> ingest_frame q f = (q, Err QueueNotAccepting).
 Proof. intros H. unfold ingest_frame. rewrite H. reflexivity. Qed.
